@@ -182,3 +182,87 @@ Proof.
     assert (Hp : In p priv) by (apply Hpriv; split; [apply (proj1 (proj2 Hrep p)); exact HpG|exact Hnp]).
     rewrite (HS p Hp d Hl). symmetry. apply Hsup, Hp.
 Qed.
+
+(* ------------------------------------------------------------------ at the level of the task *)
+From Anthem Require Import Model.Tightness Proofs.PlaceholderOk Proofs.RenameOk Proofs.ExternalOk Proofs.C02Full.
+
+Lemma ph_private_choice FI m P priv : private_choice (ph_program FI m P) priv -> private_choice P priv.
+Proof.
+  intros [r' [a' [Hr' [Hh Ha]]]]. unfold ph_program in Hr'. apply in_map_iff in Hr'. destruct Hr' as [r [<- Hr]].
+  cbn in Hh. destruct (rhead r) as [a|a|] eqn:E; cbn in Hh; try discriminate.
+  injection Hh as <-. rewrite ph_atom_pred in Ha. exists r, a. auto.
+Qed.
+
+Section TaskLevel.
+Variable fuel : nat.
+Notation translate := (theory_translate tau_star_total completion (simp_classic_total fuel)).
+Notation tl := (task_left tau_star_total completion (simp_classic_total fuel)).
+Notation tr := (task_right tau_star_total completion (simp_classic_total fuel)).
+
+(* one program of an external task: the formulas labelled Assumption in its translated
+   (completed, possibly simplified) theory hold iff its private predicates are supported *)
+Theorem translated_assumptions_supported t P G th :
+  TauStar.tau_star P = Some G -> translate t (task_placeholders t) P = Some th ->
+  has_private_recursion P (private_predicates (ug_public_predicates (et_user_guide t)) (program_preds P)) = false ->
+  forall FI M,
+    tvalid FI M (assumptions_of (control_translate (ug_public_predicates (et_user_guide t)) th)) <->
+    priv_supported M (ph_program FI (task_placeholders t) P)
+                   (private_predicates (ug_public_predicates (et_user_guide t)) (program_preds P)).
+Proof.
+  intros Hts Htr Hpr FI M. unfold theory_translate, tau_star_total in Htr. rewrite Hts in Htr.
+  set (m := task_placeholders t) in *. set (public := ug_public_predicates (et_user_guide t)) in *.
+  set (ins := ug_input_predicates (et_user_guide t)) in *.
+  destruct (completion (rp_theory m G) ins) as [D|] eqn:HD; [|discriminate].
+  assert (Hrl : forall f, In f (rp_theory m G) -> rule_like f).
+  { intros f Hf. unfold rp_theory in Hf. apply in_map_iff in Hf. destruct Hf as [f0 [<- Hf0]].
+    apply rule_like_rp. eapply tau_star_rule_like_all; eauto. }
+  assert (Hcl : forall f, In f D -> classified f) by (eapply completion_all_classified; eauto).
+  assert (E : tvalid FI M (assumptions_of (control_translate public th)) <->
+              tvalid FI M (assumptions_of (control_translate public D))).
+  { injection Htr as <-. destruct (et_simplify t); [|reflexivity].
+    rewrite (assumptions_simplified fuel public D Hcl). unfold tvalid. apply simp_theory_sound. }
+  rewrite E. clear E.
+  apply (private_definitions_supported FI (ph_program FI m P) (rp_theory m G) D ins public); auto.
+  - apply rp_tau_star_represents. exact Hts.
+  - intros Hc. apply ph_private_choice in Hc. apply (proj1 (priv_rank P _ Hpr)). exact Hc.
+  - intros p. rewrite ph_program_preds. unfold private_predicates. rewrite filter_In, negb_true_iff.
+    destruct (memb_spec pred_dec p public); split; intros [H1 H2]; split; auto; try discriminate. contradiction.
+  - intros p Hp. unfold public, ug_public_predicates. apply in_iset_extend. left. exact Hp.
+Qed.
+
+(* hypothesis 1 of docs/C02full.md for an accepted program-vs-program task: the two premises
+   `tvalid (assumptions_of lft / rgt)` of C02_modulo_private_uniqueness say exactly that the private
+   predicates of each side are supported in M (on the right: in M read through the renaming) *)
+Theorem accepted_assumptions_supported t L w pbs lft rgt :
+  et_specification t = inl L ->
+  external_decompose_full fuel t = XOk w pbs ->
+  tl t L = Some lft -> tr t = Some rgt ->
+  forall FI M,
+    (tvalid FI M (assumptions_of lft) <->
+     priv_supported M (ph_program FI (task_placeholders t) L) (task_spec_private t)) /\
+    (tvalid FI M (assumptions_of rgt) <->
+     priv_supported (reindex (task_mapping t) M) (ph_program FI (task_placeholders t) (et_program t)) (task_prog_private t)).
+Proof.
+  intros Hs Hfull El Er FI M.
+  destruct (full_ok_inv fuel t w pbs Hfull) as [[w0 Hv] [_ [[GR HGR] HGL]]].
+  destruct (HGL L Hs) as [GL HGL'].
+  destruct (validate_conditions _ _ t w0 Hv) as [_ [Hpr _]].
+  unfold c_no_private_recursion in Hpr. rewrite Hs in Hpr. apply andb_true_iff in Hpr.
+  destruct Hpr as [HpR HpL]. apply negb_true_iff in HpR, HpL.
+  unfold task_left in El. destruct (translate t (task_placeholders t) L) as [thl|] eqn:Etl; [|discriminate].
+  injection El as <-.
+  unfold task_right in Er. destruct (translate t (task_placeholders t) (et_program t)) as [thr|] eqn:Etr; [|discriminate].
+  injection Er as <-.
+  split.
+  - unfold task_spec_private in *. rewrite Hs in *.
+    apply (translated_assumptions_supported t L GL thl HGL' Etl HpL).
+  - assert (E : assumptions_of (map (rename_predicates_annot (task_mapping t))
+                                  (control_translate (ug_public_predicates (et_user_guide t)) thr))
+                = map (rename_predicates (task_mapping t))
+                      (assumptions_of (control_translate (ug_public_predicates (et_user_guide t)) thr))).
+    { unfold assumptions_of. generalize (control_translate (ug_public_predicates (et_user_guide t)) thr).
+      intros l. induction l as [|a l IH]; cbn; [reflexivity|]. destruct (an_role a); cbn; rewrite IH; reflexivity. }
+    rewrite E, tvalid_rename.
+    apply (translated_assumptions_supported t (et_program t) GR thr HGR Etr HpR).
+Qed.
+End TaskLevel.
